@@ -756,7 +756,10 @@ pub fn stream_out_sched<T: SampleX>(cfg: &Config, sig: &Signal, want_out: usize,
         let need = res.in_next();
         for (c, v) in inbuf.iter_mut().enumerate() {
             v.clear();
-            for n in 0..need {
+            // a quarter of the configurations pass slices longer than required (the rest of the data, as a caller
+            // that hands over `&data[pos..]` does): only the advertised number of frames may be used
+            let extra = if (cfg.chunk + cfg.sinc_len + cfg.os) % 4 == 0 { res.in_max().saturating_sub(need).min(4096) } else { 0 };
+            for n in 0..need + extra {
                 v.push(T::of64(sig.value(c, pos + n as u64)));
             }
         }
